@@ -32,6 +32,21 @@ REPRESENTATIVES = [bytes([0x00]), bytes([0x18, 0xFF]), bytes([0x20]), bytes([0x3
                    bytes([0xBF, 0xFF]), bytes([0x9F, 0xFF]), bytes([0x5F, 0xFF]), bytes([0xC2, 0x41, 0x01]), bytes([0xF8, 0x20])]
 
 
+# ill-formed items: every head with a 1/2/4/8-byte argument cut right after the head, in the middle of the argument, and
+# (for strings / arrays / maps) right after an argument that promises content
+TRUNCATED = []
+for _mt in range(8):
+    for _ai in (24, 25, 26, 27):
+        _w = 1 << (_ai - 24)
+        TRUNCATED.append(bytes([(_mt << 5) | _ai]))
+        if _w > 1:
+            TRUNCATED.append(bytes([(_mt << 5) | _ai]) + bytes(_w - 1))
+        TRUNCATED.append(bytes([(_mt << 5) | _ai]) + (3).to_bytes(_w, "big"))
+TRUNCATED += [b"", bytes([0x5F]), bytes([0x9F]), bytes([0xBF, 0x01]), bytes([0x41]), bytes([0x62, 0x61]), bytes([0x82, 0x01]), bytes([0xA1, 0x01]),
+              bytes([0xC2]), bytes([0xD8, 0x6B]), bytes([0x1C]), bytes([0xFC]), bytes([0xFF])]
+HEAD_ONLY = [t for t in TRUNCATED if len(t) <= 1]
+
+
 def impl_parse_raw(data):
     """What the property observes: the exception type escaping from_cbor(...).to_obj()."""
     return interp.impl_parse("SuitEnvelopeTagged", data)
@@ -238,7 +253,7 @@ def malformed_stream(ck, tmp, n_env):
         # single-node replacement
         picked = spans if ck.deep else rng.sample(spans, min(len(spans), 25))
         for sp in picked:
-            reps = REPRESENTATIVES if ck.deep else rng.sample(REPRESENTATIVES, 5)
+            reps = (REPRESENTATIVES + TRUNCATED) if ck.deep else rng.sample(REPRESENTATIVES, 4) + rng.sample(TRUNCATED, 2)
             for rep in reps:
                 inputs.append((fix_wrappers(env, sp, rep), "node replaced (wrappers rebuilt)"))
                 if rng.random() < 0.3:
@@ -275,9 +290,17 @@ def class_stream(ck):
     import c02
     fails, inputs = [], []
     for n in c02.node_classes():
-        for rep in REPRESENTATIVES:
+        for rep in REPRESENTATIVES + (TRUNCATED if ck.deep else HEAD_ONLY):
             inputs.append((n, rep))
             inputs.append((n, cbor2.dumps(rep)))
+    # every one-byte input, raw and as the content of each byte-string-wrapped envelope member
+    for v in range(256):
+        one = bytes([v])
+        inputs.append(("SuitEnvelopeTagged", one))
+        inputs.append(("SuitEnvelopeTagged", cbor2.dumps(cbor2.CBORTag(107, {2: one, 3: cbor2.dumps({1: 1, 2: 1})}))))
+        inputs.append(("SuitEnvelopeTagged", cbor2.dumps(cbor2.CBORTag(107, {2: cbor2.dumps([cbor2.dumps([-16, bytes(32)])]), 3: one}))))
+        inputs.append(("SuitEnvelopeTagged", cbor2.dumps(cbor2.CBORTag(107, {2: cbor2.dumps([cbor2.dumps([-16, bytes(32)])]),
+                                                                             3: cbor2.dumps({1: 1, 2: 1, 3: one, 7: one})}))))
     mres = [interp.obj_result(x) for x in interp.model_batch(ck, [["parse", n, d, []] for n, d in inputs])]
     for (n, d), m in zip(inputs, mres):
         r = interp.run_impl(interp.impl_parse, n, d)
